@@ -114,4 +114,6 @@ pub fn run(ctx: &mut Ctx) {
     ctx.run_random(&Idempotent, fmt::strategy(5, 4), ctx.tier.pick(30_000, 500_000));
     ctx.run_random(&Idempotent, fmt::strategy(2, 7), ctx.tier.pick(10_000, 200_000));
     ctx.run_random(&Idempotent, fmt::typed_strategy(), ctx.tier.pick(6_000, 100_000));
+    // programs dominated by nested lambdas (curried, applied, do-block / conditional / list bodies)
+    ctx.run_random(&Idempotent, fmt::lambda_heavy_strategy(), ctx.tier.pick(6_000, 120_000));
 }
